@@ -22,7 +22,7 @@ FLOORS = {
                  'valuations_judged': 1200000, 'parts_checked': 150000, 'quantified_terms': 40000,
                  'value_errors_judged': 2000},
 }
-BUDGET = {'quick': {'random': 14000, 'k3_sample': 0.06, 'envs': 16},
+BUDGET = {'quick': {'random': 20000, 'k3_sample': 0.1, 'envs': 16},
           'thorough': {'random': 120000, 'k3_sample': 1.0, 'envs': 32}}
 TIMEOUT = {'quick': 900, 'thorough': 7200}
 
